@@ -3,7 +3,8 @@
    Fault sites of the model: a stream item RRaise (exception while evaluating the pattern or while constructing the Event),
    the [dev_fail]-th note_on / control / program_change call of the device raising, an action callback raising an
    Exception (CbExc) or StopIteration (CbStop). *)
-From Isobar Require Import Base.Prelude Sched.Model Sched.TimeProofs Sched.MergeProofs Sched.FaultProofs Sched.RenameProofs Sched.TickFrame Sched.ReachProofs.
+From Isobar Require Import Base.Prelude Sched.Model Sched.TimeProofs Sched.MergeProofs Sched.FaultProofs Sched.RenameProofs Sched.TickFrame Sched.ReachProofs
+  Sched.ExcClass Sched.ExcClassProofs Sched.Reconf Sched.ReconfProofs.
 
 (** * Tolerant mode: containment *)
 (* With ignore_exceptions, for EVERY state of the timeline (any number and order of tracks, any streams, any device
@@ -261,4 +262,154 @@ Definition st_h : list op :=
 Example C17_callback_stop_nonvacuous :
   tick_calls st_cfg tl0 st_h = [[CCallback 0]; []; []; []]
   /\ map (fun t => (t_finished t, t_stream t)) (tracks (run_state st_cfg tl0 st_h)) = [(true, empty_stream)].
+Proof. vm_compute. repeat split. Qed.
+
+(** * The class of the exception raised (Sched/ExcClass.v) *)
+(* The stream item RRaise, the callback outcome CbExc and the device fault of the model carry no class.  An exception is
+   known to the `except` clauses it meets (Track.tick: StopIteration; Timeline.tick / perform_event: Exception) by the MRO
+   of its class; [classify] / [classify_cb] transcribe those clauses.  EVERY class that is not a StopIteration - TypeError
+   (60 + None), ZeroDivisionError, ValueError, KeyError, a user's own class, a subclass of any of them - is the same
+   item: *)
+Theorem C17_any_class_is_a_fault : forall m, catches cStopIteration m = false -> classify m = RRaise /\ classify_cb m = CbExc.
+Proof. intros m H. exact (conj (classify_plain m H) (classify_cb_plain m H)). Qed.
+(* so two histories that differ only in the classes of the exceptions their patterns raise are one and the same history
+   for the scheduler: the same calls, results and scheduled tracks after every operation, in either mode *)
+Theorem C17_exception_class_irrelevant : forall cfg tl h h', Forall2 same_kind_op h h' ->
+  run cfg tl (map erase_op h) = run cfg tl (map erase_op h').
+Proof. exact class_irrelevant. Qed.
+(* spelled out for the turn in which the pattern raises an exception of class m, ANY m that is not a StopIteration:
+   the turn raises; with tolerance disabled the loop over the tracks is aborted with the exception; with tolerance
+   enabled the track is removed and the loop goes on *)
+Theorem C17_any_class_raises : forall cfg nowT tr n cs p cyc m,
+  t_stream tr = cstream cs p cyc -> nth_error cs p = Some (CRaiseCls m) -> catches cStopIteration m = false ->
+  t_started tr = true -> t_next tr <= t_cur tr -> count_exhausted tr = false -> (1 <= fuel cfg)%nat ->
+  track_tick_a cfg nowT tr n = (set_stream tr (snd (pull (t_stream tr))), [], n, TRaise).
+Proof. exact any_class_raises. Qed.
+Theorem C17_any_class_propagates : forall cfg tl id r tr calls cs p cyc m, ignore_exc cfg = false ->
+  find_track id (tracks tl) = Some tr ->
+  t_stream tr = cstream cs p cyc -> nth_error cs p = Some (CRaiseCls m) -> catches cStopIteration m = false ->
+  t_started tr = true -> t_next tr <= t_cur tr -> count_exhausted tr = false -> (1 <= fuel cfg)%nat ->
+  phase_tracks cfg tl (id :: r) calls =
+    (set_dev (upd_track tl (set_stream tr (snd (pull (t_stream tr))))) (dev_calls tl), calls ++ [], RException).
+Proof. exact any_class_propagates. Qed.
+Theorem C17_any_class_contained : forall cfg tl id tr cs p cyc m, ignore_exc cfg = true ->
+  find_track id (tracks tl) = Some tr -> NoDup (map t_id (tracks tl)) ->
+  t_stream tr = cstream cs p cyc -> nth_error cs p = Some (CRaiseCls m) -> catches cStopIteration m = false ->
+  t_started tr = true -> t_next tr <= t_cur tr -> count_exhausted tr = false -> (1 <= fuel cfg)%nat ->
+  let '(tl', _, ab) := tick_one cfg tl id in
+  ab = None /\ find_track id (tracks tl') = None
+  /\ (forall id', id' <> id -> find_track id' (tracks tl') = find_track id' (tracks tl))
+  /\ now tl' = now tl.
+Proof. exact any_class_contained. Qed.
+(* a StopIteration (or a subclass) coming out of the pattern is the iterator protocol's end of the stream *)
+Theorem C17_stop_class_ends_stream : forall tr cs p cyc m,
+  t_stream tr = cstream cs p cyc -> nth_error cs p = Some (CRaiseCls m) -> catches cStopIteration m = true ->
+  count_exhausted tr = false -> fst (get_next_event tr) = GStop.
+Proof. exact stop_class_ends_stream. Qed.
+
+(** * The tolerance switch re-configured on an existing Timeline (Sched/Reconf.v) *)
+(* histories over the alphabet [RO o] (an operation of Sched/Model.v) / [RFlag b] (`timeline.ignore_exceptions = b`);
+   a flip between two segments is Sched/Model.v's run of the second segment under the re-configured cfg from the state
+   the first segment left *)
+Theorem C17_reconf_segments : forall cfg tl ops1 b ops2,
+  rrun cfg tl (map RO ops1 ++ RFlag b :: map RO ops2) =
+    run cfg tl ops1 ++ ([], ROk, map t_id (tracks (run_state cfg tl ops1)))
+                    :: run (set_ignore cfg b) (run_state cfg tl ops1) ops2.
+Proof. exact rrun_two_segments. Qed.
+(* the mode in force is the one assigned last, whatever the constructor was given *)
+Theorem C17_reconf_mode_is_last_assignment : forall cfg l b,
+  ignore_exc (rrun_cfg cfg (l ++ [RFlag b])) = b /\ rrun_cfg cfg l = set_ignore cfg (ignore_exc (rrun_cfg cfg l)).
+Proof. intros cfg l b. exact (conj (rrun_cfg_last_flag cfg l b) (rrun_cfg_is_set_ignore l cfg)). Qed.
+(* containment, for EVERY history with any number of flips and from any state: an operation performed while the switch is
+   on never returns an exception ... *)
+Theorem C17_reconf_contained : forall l cfg tl,
+  Forall2 (fun (f : bool) (o : obs) => f = true -> snd (fst o) <> RException) (rflags cfg l) (rrun cfg tl l).
+Proof. exact rrun_contained. Qed.
+(* ... in particular when the timeline was constructed (and has played) with the switch off and it is turned on later *)
+Theorem C17_flip_on_contained : forall cfg tl ops1 ops2,
+  Forall (fun o : obs => snd (fst o) <> RException) (run (set_ignore cfg true) (run_state cfg tl ops1) ops2).
+Proof. exact flip_on_contained. Qed.
+(* the states of such a performance (after any operation or assignment, and inside a tick) keep track ids distinct, so
+   the per-turn theorems apply with the mode in force NOW: on -> the failing track, and only it, is removed ... *)
+Theorem C17_reconf_history_reachable : forall cfg l, rreachable cfg (rrun_cfg cfg l) (rrun_state cfg tl0 l).
+Proof. exact rhistory_reachable. Qed.
+Theorem C17_reconf_failing_track_removed : forall cfg0 cfg tl id tr tr1 c n1, rreachable cfg0 cfg tl -> ignore_exc cfg = true ->
+  find_track id (tracks tl) = Some tr ->
+  track_tick_a cfg (now tl) tr (dev_calls tl) = (tr1, c, n1, TRaise) ->
+  let '(tl', c', ab) := tick_one cfg tl id in
+  ab = None /\ c' = c
+  /\ find_track id (tracks tl') = None
+  /\ (forall id', id' <> id -> find_track id' (tracks tl') = find_track id' (tracks tl))
+  /\ actions tl' = actions tl ++ release_actions tr1
+  /\ now tl' = now tl.
+Proof. exact reconf_fault_removed. Qed.
+(* ... off -> the fault aborts the loop with the exception, also on a timeline that was constructed tolerant *)
+Theorem C17_reconf_propagates : forall cfg0 cfg tl id r tr tr1 c n1 calls, rreachable cfg0 cfg tl -> ignore_exc cfg = false ->
+  find_track id (tracks tl) = Some tr ->
+  track_tick_a cfg (now tl) tr (dev_calls tl) = (tr1, c, n1, TRaise) ->
+  phase_tracks cfg tl (id :: r) calls = (set_dev (upd_track tl tr1) n1, calls ++ c, RException).
+Proof. exact reconf_fault_propagates. Qed.
+(* the clock: when every tick of the history runs while the switch is on (no stop-when-done, fuel aside), every tick
+   completes and the clock reads (number of ticks) * tau *)
+Theorem C17_reconf_clock : forall l cfg tl, stop_when_done cfg = false ->
+  rticks_tolerant cfg l = true -> rno_fuel_out cfg tl l = true ->
+  now (rrun_state cfg tl l) = now tl + rticks_in l * tau cfg.
+Proof. intros l cfg tl W T F. apply rrun_now. apply rtolerant_all_ok; assumption. Qed.
+(* non-interference under re-configuration: the merge theorem with the flips kept in the solo history, and its
+   consequence for the run with and the run without the failing track *)
+Theorem C17_reconf_noninterference : forall i pc pb cfg h,
+  uncoupled cfg = true -> rhist_wf i pc pb 0 h = true -> rall_ticks_ok cfg tl0 h = true ->
+  rtick_calls cfg (tl_at i) (rsolo i 0 h) = map (filter (call_ok pc pb)) (rtick_calls cfg tl0 h)
+  /\ sim i pc pb (rrun_state cfg tl0 h) (rrun_state cfg (tl_at i) (rsolo i 0 h)).
+Proof. exact rmerge_from_empty. Qed.
+Theorem C17_reconf_same_as_without : forall i pc pb cfg h h',
+  uncoupled cfg = true -> rhist_wf i pc pb 0 h = true -> rhist_wf i pc pb 0 h' = true ->
+  rall_ticks_ok cfg tl0 h = true -> rall_ticks_ok cfg tl0 h' = true -> rsolo i 0 h = rsolo i 0 h' ->
+  map (filter (call_ok pc pb)) (rtick_calls cfg tl0 h) = map (filter (call_ok pc pb)) (rtick_calls cfg tl0 h').
+Proof. exact rsame_solo_same_calls. Qed.
+
+(* class ids: TypeError = 3, ValueError = 4, a user's subclass of TypeError = 9, a user's subclass of StopIteration = 10 *)
+Definition mTypeError : list Z := [3; cException; cBaseException].
+Definition mValueError : list Z := [4; cException; cBaseException].
+Definition mMyTypeError : list Z := [9; 3; cException; cBaseException].
+Definition mMyStop : list Z := [10; cStopIteration; cException; cBaseException].
+Definition cnt (d n ch g : Z) : citem := CPlain (nt d n ch g).
+(* fx_h with the class of track 1's fault spelled out *)
+Definition fx_ch (m : list Z) : list cop :=
+  [ COSchedule [cnt 2 60 0 1; cnt 2 62 0 1] false None None None true None true;
+    COSchedule [cnt 2 50 1 3; CRaiseCls m; cnt 2 51 1 1] false None None None true None true;
+    COSchedule [CPlain (REvent (mkEvent 2 true (KAction 0))); cnt 2 70 2 1] false None None None true None true;
+    COther OTick; COther OTick; COther OTick; COther OTick; COther OTick ].
+Example C17_class_nonvacuous :
+  map erase_op (fx_ch mTypeError) = fx_h /\ map erase_op (fx_ch mMyTypeError) = fx_h
+  /\ Forall2 same_kind_op (fx_ch mTypeError) (fx_ch mValueError)
+  /\ catches cStopIteration mTypeError = false /\ in_scope mTypeError = true /\ in_scope mMyStop = true
+  /\ classify mMyStop = RStopIter /\ classify_cb mMyStop = CbStop
+  (* a TypeError raised by the pattern with tolerance disabled: tick 2 returns the exception *)
+  /\ map (fun o => snd (fst o)) (run (fx_cfg false) tl0 (map erase_op (fx_ch mTypeError))) = [ROk; ROk; ROk; ROk; ROk; RException; ROk; ROk]
+  (* a StopIteration subclass: the stream of track 1 ends there, nothing is raised, the track is removed as finished
+     once its note has been released *)
+  /\ map (fun o => snd (fst o)) (run (fx_cfg false) tl0 (map erase_op (fx_ch mMyStop))) = [ROk; ROk; ROk; ROk; ROk; ROk; ROk; ROk].
+Proof.
+  split; [reflexivity|]. split; [reflexivity|]. split.
+  { repeat constructor. }
+  vm_compute. repeat split.
+Qed.
+
+(* fx_h on a timeline CONSTRUCTED intolerant whose switch is turned on after the first tick: the fault of tick 2 is
+   contained, exactly as on a timeline constructed tolerant; constructed tolerant and turned off: it propagates; turned
+   off and on again before the fault: contained *)
+Definition fx_rh (flips : list rop) : list rop := map RO (firstn 4 fx_h) ++ flips ++ map RO (skipn 4 fx_h).
+Example C17_reconf_nonvacuous :
+  map (fun o => snd (fst o)) (rrun (fx_cfg false) tl0 (fx_rh [RFlag true])) = [ROk; ROk; ROk; ROk; ROk; ROk; ROk; ROk; ROk]
+  /\ rtick_calls (fx_cfg false) tl0 (fx_rh [RFlag true]) = tick_calls (fx_cfg true) tl0 fx_h
+  /\ map snd (rrun (fx_cfg false) tl0 (fx_rh [RFlag true])) = [[0]; [0; 1]; [0; 1; 2]; [0; 1; 2]; [0; 1; 2]; [0; 1; 2]; [0; 2]; [0; 2]; []]%nat
+  /\ now (rrun_state (fx_cfg false) tl0 (fx_rh [RFlag true])) = 5
+  /\ rflags (fx_cfg false) (fx_rh [RFlag true]) = [false; false; false; false; false; true; true; true; true]
+  /\ rticks_tolerant (fx_cfg true) (fx_rh [RFlag true]) = true
+  /\ map (fun o => snd (fst o)) (rrun (fx_cfg true) tl0 (fx_rh [RFlag false])) = [ROk; ROk; ROk; ROk; ROk; ROk; RException; ROk; ROk]
+  /\ now (rrun_state (fx_cfg true) tl0 (fx_rh [RFlag false])) = 4
+  /\ map (fun o => snd (fst o)) (rrun (fx_cfg true) tl0 (fx_rh [RFlag false; RFlag true])) = [ROk; ROk; ROk; ROk; ROk; ROk; ROk; ROk; ROk; ROk]
+  /\ uncoupled (fx_cfg false) = true /\ rhist_wf 0 (fun c => c =? 0) (fun _ => false) 0 (fx_rh [RFlag true]) = true
+  /\ rall_ticks_ok (fx_cfg false) tl0 (fx_rh [RFlag true]) = true.
 Proof. vm_compute. repeat split. Qed.
